@@ -19,7 +19,9 @@ TECHNIQUE = "property-based testing (Hypothesis) + exhaustive enumeration of the
 LEVEL_TEXT = (
     "Bounded exploration: the slice x slice merge space is enumerated completely for starts 0..7, lengths 0..7/None and 0..9 "
     "rows; all other merge/elision families are sampled (thousands of generated pairs per run) and compared with an "
-    "independent evaluator and the iteration engine.  No absence claim beyond those bounds."
+    "independent evaluator and the iteration engine (incl. selections mixing a condition with constant-foldable "
+    "operands, and a guarding selection followed by one that is only defined on the guarded rows - floor division by "
+    "the guarded column).  No absence claim beyond those bounds."
 )
 LEVEL_NOTE = "trusts: the reference evaluator (vf/core/prog.py), decoding of library operations through public dataclass fields, Hypothesis"
 RULE = (
